@@ -4,6 +4,9 @@ one canonical form of constructs that maintainers routinely rewrite into each ot
   E1  !(a == b) -> a != b ; !(a != b) -> a == b ; !!a -> a                     (integral / pointer / bool operands only)
   E2  comparisons are oriented: the operand with the smaller text on the left (a > b  ==  b < a)
   E3  (a < b) ? a : b and friends -> min(a, b) / max(a, b); arguments of min / max sorted by text
+  E5  for unsigned X (own type unsigned, or unsigned char / short promoted): 0 < X, 1 <= X -> 0 != X ; 0 >= X, 1 > X -> 0 == X
+  E6  0 != (a & b) -> (a & b) used as a bool ; 0 == (a & b) -> !(a & b)          (bit tests are written implicitly in this code base)
+  E7  c ? true : false -> c ; c ? false : true -> !c
   E4  x += 1, x = x + 1, x++ (value unused) -> ++x ; likewise --x
   S1  if (!c) A else B -> if (c) B else A
   S2  if (c) { ...always exits } else B  ->  if (c) { ... } ; B            (else after return / throw)
@@ -35,6 +38,75 @@ def _same(a, b):
     return _txt(a).replace(" ", "") == _txt(b).replace(" ", "")
 
 
+def _lit(x):
+    x = _strip(x)
+    if isinstance(x, dict) and x.get("k") == "Int":
+        return x.get("v")
+    return None
+
+
+def _unsigned(x):
+    """x (an operand of a comparison) can only hold values >= 0: its own type is unsigned, or it is an unsigned char / short
+    promoted to int"""
+    if not isinstance(x, dict):
+        return False
+    t = (x.get("t") or "").replace("const ", "")
+    if t.startswith("unsigned"):
+        return True
+    sx = _strip(x)
+    if isinstance(sx, dict) and sx.get("k") == "Bin" and sx.get("op") == "&":
+        for side in ("l", "r"):
+            o = _strip(sx[side])
+            v = o.get("v") if isinstance(o, dict) and o.get("k") not in ("Call", "OpCall", "Assign") and isinstance(o.get("v"), int) and not isinstance(o.get("v"), bool) else None
+            if v is not None and v >= 0:
+                return True   # masking with a non-negative constant cannot give a negative value
+    if x.get("k") in ("Cast", "Paren") and t == "int":
+        i = _strip(x)
+        ti = ((i or {}).get("t") or "").replace("const ", "") if isinstance(i, dict) else ""
+        return ti in ("unsigned char", "unsigned short", "bool")
+    return False
+
+
+def _lit(x):
+    x = _strip(x)
+    if isinstance(x, dict) and x.get("k") == "Int":
+        return x.get("v")
+    return None
+
+
+def _boolcast(x, like):
+    return {"k": "Cast", "t": "bool", "impl": True, "ck": "IntegralToBoolean", "e": x, "loc": like.get("loc"), "sz": 1, "synth": True}
+
+
+def _zero_cmp(e):
+    """E5: for unsigned X: 0 < X, 1 <= X -> 0 != X ; 0 >= X, 1 > X -> 0 == X.   E6: 0 != (a & b) -> (a & b) as a bool, 0 == (a & b) -> !(a & b)"""
+    l, r, op = e["l"], e["r"], e["op"]
+    if _lit(l) is None and _lit(r) is not None:
+        l, r, op = r, l, FLIP[op]
+    v = _lit(l)
+    if v is None or _lit(r) is not None:
+        return e
+    x = r
+    new = None
+    if _unsigned(x):
+        if (v == 0 and op == "<") or (v == 1 and op == "<="):
+            new = "!="
+        elif (v == 0 and op == ">=") or (v == 1 and op == ">"):
+            new = "=="
+    if new is not None:
+        zero = dict(_strip(l))
+        zero["v"], zero["lit"] = 0, "0"
+        e = dict(e)
+        e["l"], e["r"], e["op"] = zero, x, new
+        v, op = 0, new
+    if v == 0 and op in ("!=", "==") and not _is_float(_strip(x)):
+        sx = _strip(x)
+        if isinstance(sx, dict) and sx.get("k") == "Bin" and sx.get("op") == "&":
+            b = _boolcast(x, e)
+            return b if op == "!=" else {"k": "Un", "op": "!", "e": b, "loc": e.get("loc"), "t": "bool", "sz": 1}
+    return e
+
+
 def norm_expr(e):
     """bottom-up rewrite of one expression node (dicts / lists)"""
     if isinstance(e, list):
@@ -58,6 +130,9 @@ def norm_expr(e):
             n["op"] = NEG_EQ[inner["op"]]
             return n
     if k == "Bin" and e.get("op") in FLIP:
+        e = _zero_cmp(e)
+        if e.get("k") != "Bin" or e.get("op") not in FLIP:
+            return e
         try:
             if _txt(e["l"]) > _txt(e["r"]):
                 e["l"], e["r"] = e["r"], e["l"]
@@ -65,6 +140,13 @@ def norm_expr(e):
         except Exception:
             pass
     if k == "Cond":
+        a, b = _strip(e.get("a")), _strip(e.get("e"))
+        if isinstance(a, dict) and isinstance(b, dict) and a.get("k") == "Bool" and b.get("k") == "Bool" and a.get("b") != b.get("b"):
+            c0 = e.get("c")
+            pos = c0 if (c0.get("t") == "bool") else _boolcast(c0, e)
+            if a.get("b"):
+                return pos
+            return norm_expr({"k": "Un", "op": "!", "e": pos, "loc": e.get("loc"), "t": "bool", "sz": 1})
         c = _strip(e.get("c"))
         if isinstance(c, dict) and c.get("k") == "Bin" and c.get("op") in ("<", ">", "<=", ">="):
             l, r, a, b = c["l"], c["r"], e.get("a"), e.get("e")
